@@ -2,9 +2,9 @@ SETUP = ("/venv/bin/python -c 'import hypothesis' 2>/dev/null || "
          "/venv/bin/pip install --no-index --find-links /opt/veriftools/wheels hypothesis")
 HOOKS = {
     "guard": "JTIOSUE_QUBOVERT_VERIF",
-    "enable": "./check exports JTIOSUE_QUBOVERT_VERIF=1 and imports an overlay copy of /repo/qubovert rebuilt under /verif/.build/ on every run",
+    "enable": "./check exports JTIOSUE_QUBOVERT_VERIF=1 (read once at import of qubovert._pubo) and imports an overlay copy of /repo/qubovert rebuilt under /verif/.build/ on every run; the hook records a degree-reduction certificate used by C01 (sub-check cert)",
     "baseline_off_cmd": "/verif/tools/baseline.sh",
-    "source_commits": [],
+    "source_commits": ["74aaf19"],
     "add_only": True,
 }
 ENGINES = [
@@ -48,6 +48,55 @@ CHECKS["C17"] = {
     "design_ref": "DESIGN.md section 4, C17",
     "note": "Trusted: clang 14 sanitizer runtimes (ASan, UBSan incl. signed overflow, no-recover), LD_PRELOAD into stock CPython, detect_leaks=0. Not reachable: 32-bit size overflow needing > 8 GB.",
     "technique": "fuzzing: Hypothesis-generated call sequences against an ASan/UBSan-instrumented build in a persistent worker, with shrinking; gcov-measured coverage",
+}
+_T_TT = "property-based testing: Hypothesis-generated inputs judged by complete numpy truth tables of an independent reference evaluator (vf/ref.py), shrinking to replay JSON"
+CHECKS["C01"] = {
+    "text": "Two generated sub-checks. enum: small refreshed PUBO/PUSO/PCBO/PCSO models x 4 targets x degree x pairs hints x 6 penalty classes, decided on complete truth tables of M and D (exact extension exists for every x; min over ancillas == M and arg-mins convert to minimisers when penalty >= |coefficient|; degree/type/label discipline; convert_solution in dict/list/tuple, boolean/spin form). cert: models up to 12 variables / degree 8, where the reduction certificate recorded by the guarded hook is validated step by step (pair in key, fresh unique ancilla >= n, penalty >= |v|, final key) and D must equal the polynomial the certificate implies; the 8-row gadget table plus that identity give the inequality for every assignment of that model, cross-checked on 300 sampled assignments.",
+    "design_ref": "DESIGN.md section 4, C01",
+    "note": "Trusted: vf/ref.py evaluator and conversions, numpy; dyadic coefficients so comparisons are exact. cert needs the hook JTIOSUE_QUBOVERT_VERIF=1 (absent certificate => counted and skipped, verdict rests on enum). Refreshed models only (stale states are C14).",
+    "technique": _T_TT + "; certificate validation (polynomial identity) for models beyond enumeration",
+}
+CHECKS["C02"] = {
+    "text": "Generated integer boolean polynomials from a branch-targeted shape mixture x 6 relations x log_trick x bounds modes (always a valid enclosure) x lam x argument types, 1-3 constraints per model incl. a switch to a copy; the added polynomial F = after - before (reference subtraction) is tabulated over all (x, ancillas): F >= 0, min_a F = 0 iff relation holds, F >= lam otherwise (only F >= 0 when warned unsatisfiable); is_solution_valid against the reference relations on all x; ancilla names pairwise distinct across constraints; argument unchanged. Exact arithmetic.",
+    "design_ref": "DESIGN.md section 4, C02",
+    "note": "Trusted: vf/ref.py polynomial arithmetic and tables. Constraints needing > 16 variables counted too_big (0 in practice). Integer-valued P only.",
+    "technique": _T_TT,
+}
+CHECKS["C03"] = {
+    "text": "C02's generator and oracle on PCSO / spin polynomials (integer-valued; 1-4 constraints per model, copy mid-way continuing the numbering), plus: every ancilla '__a<k>' present has k < num_ancillas and names never repeat across constraints.",
+    "design_ref": "DESIGN.md section 4, C03",
+    "note": "Trusted: vf/ref.py; shares code with vf/c02.py. Bounds valid for H by the reference table.",
+    "technique": _T_TT,
+}
+CHECKS["C05"] = {
+    "text": "Generated expression trees (depth <= 4) over the ten model types, raw dicts and scalars with + - * ** unary - and / in normal, reflected and in-place forms; every operator node is run with the library and compared with a numpy evaluation of the tree on plain numbers at every assignment; .value and the four *_value functions for dict/list/tuple assignments; canonical storage; algebraically rewritten trees must give equal dicts; operand snapshots; result type; the KeyError rule of the degree-2 types (unspecified zone counted, not judged).",
+    "design_ref": "DESIGN.md section 4, C05",
+    "note": "Trusted: numpy evaluation of the tree, vf/ref.py. Exact comparison when all constants are dyadic and within 2^52, else tolerance 1e-9*scale.",
+    "technique": "property-based testing: Hypothesis-generated expression trees with a plain-number evaluation oracle and metamorphic rewrites (commute/distribute/re-associate), shrinking to replay JSON",
+}
+CHECKS["C06"] = {
+    "text": "All 16 logical constraint methods: the finite sub-domain (plain distinct labels, arity <= 3, 4 weights, 6 label pools, 2 bases: 3456 cases) is enumerated completely; beyond it Hypothesis generates arities up to 4 with label or {0,1}-valued expression operands (sat trees, dict/PUBO/PCBO forms), shared variables, base objective. F = after - before must be 0 where the gate relation holds (python-bool semantics) and >= lam elsewhere on the full truth table, involve only operand variables and no '__a' ancilla; is_solution_valid must agree; operands unchanged.",
+    "design_ref": "DESIGN.md section 4, C06",
+    "note": "Trusted: vf/satref.py python-bool gate semantics and reference polynomials, vf/ref.py tables; exact dyadic arithmetic.",
+    "technique": _T_TT + "; exhaustive enumeration of the plain-label sub-domain",
+}
+CHECKS["C07"] = {
+    "text": "Generated trees over the 8 sat gates (depth <= 4, arity 1-4, <= 6 labels, label and model leaves of every boolean type); the result's truth table must equal the python-bool evaluation of the tree on all assignments; every dict/model operand of every gate call is snapshotted and must be unchanged after the gate, at the end, and after mutating the returned object in place (aliasing).",
+    "design_ref": "DESIGN.md section 4, C07",
+    "note": "Trusted: vf/satref.py, vf/ref.py. QUBO/QUBOMatrix leaves only over <= 2 variables.",
+    "technique": _T_TT,
+}
+CHECKS["C10"] = {
+    "text": "One generated sub-check per problem class (SetCover, VertexCover, BILP, JobSequencing, GraphPartitioning, NumberPartitioning, AlternatingSectorsChain): tiny instances feasible by construction, weights strictly above the documented thresholds (factor 1.001 .. 4) and the defaults; an independent combinatorial solver gives feasibility and optimal cost; is_solution_valid must equal the predicate on all candidates; every ground state of the to_qubo() and to_quso() truth tables must decode to a feasible optimum with ground energy = B * optimal cost; defaults: ground energy = optimum and some ground state decodes to it; solve_bruteforce feasible-optimal (incl. free-variable instances); num_binary_variables covers the labels used.",
+    "design_ref": "DESIGN.md section 4, C10",
+    "note": "Trusted: the per-problem enumerative solvers in vf/c10.py, vf/ref.py tables; tolerance 1e-9*(1+sum|coef|) on energies. Formulations <= 16 variables.",
+    "technique": "property-based testing: Hypothesis-generated problem instances with independent combinatorial solvers as oracle over complete truth tables of the QUBO/QUSO",
+}
+CHECKS["C15"] = {
+    "text": "Generated boolean/spin models of all types and raw dicts (unsorted/repeated labels, n <= 8): the four approximate_*_extrema functions must enclose the exact min/max of the truth table, with lo == hi == c for constants; anneal_temperature_range on a grid of admissible probability pairs (incl. 0, equal, extreme floats) must return finite T0 >= Tf >= 0 and (0, 0) for models without variables, including fully cancelled (stale) models.",
+    "design_ref": "DESIGN.md section 4, C15",
+    "note": "Trusted: vf/ref.py tables; exact comparison for dyadic coefficients, tolerance 1e-9*sum|coef| for the float class.",
+    "technique": _T_TT,
 }
 for e in ENGINES:
     e["serves_properties"] = sorted(CHECKS)
